@@ -468,7 +468,9 @@ def State.rmSet (s : State) (id : String) : Resp × State :=
           | _ => true)
         (.ok "-", { s2 with sets := setAt s2.sets sh none, edges := es })
 
-/-- non-strict removal of one data reference from one annotation (or of the whole annotation) -/
+/-- removal of one data reference from one annotation (or of the whole annotation).
+The code un-indexes the dropped reference in a loop after all annotations were visited; the model
+does it at once, which is the same for every state an observer can see (see DESIGN.md). -/
 def State.dropData (s : State) (sh dh : Nat) (strict : Bool) (ah : Nat) : Option State :=
   match getLive s.anns ah with
   | none => some s        -- already removed as a dependency of an earlier one
@@ -477,7 +479,8 @@ def State.dropData (s : State) (sh dh : Nat) (strict : Bool) (ah : Nat) : Option
     else
       let rest := a.data.filter (fun p => !(p.1 == sh && p.2 == dh))
       if rest.isEmpty && !a.data.isEmpty then s.removeAnn s.fuel ah
-      else some { s with anns := setAt s.anns ah (some { a with data := rest }) }
+      else some { s with anns := setAt s.anns ah (some { a with data := rest }),
+                         edges := eraseEdge s.edges (.data sh dh) ah }
 
 /-- `remove_data` on resolved handles -/
 def State.rmDataH (s : State) (sh dh : Nat) (strict : Bool) : Option State :=
@@ -496,8 +499,6 @@ def State.rmDataH (s : State) (sh dh : Nat) (strict : Bool) : Option State :=
         | none => none      -- StoreFor<AnnotationData>::remove fails on a handle that is not there
         | some _ =>
           let m' := { m with data := setAt m.data dh none }
-          -- afterwards: erase the recorded (set, data, annotation) entries
-          let es := users.foldl (fun es ah => eraseEdge es (.data sh dh) ah) es
           some { s2 with sets := setAt s2.sets sh (some m'), edges := es }
 
 def State.rmData (s : State) (set : String) (d : Ref) (strict : Bool) : Resp × State :=
